@@ -332,25 +332,18 @@ def abs (t : HashTable) : Spec.Map := t.buckets.flatten.map (fun e => (e.key, e.
 def chainOk (c : HCfg) (cap i : Nat) (ch : List Entry) : Prop :=
   ∀ e ∈ ch, e.hash = keyHash c e.key ∧ e.hash % cap = i
 
-def bucketsOk (c : HCfg) (cap : Nat) : Nat → List (List Entry) → Prop
-  | _, [] => True
-  | i, ch :: rest => chainOk c cap i ch ∧ bucketsOk c cap (i + 1) rest
-
 instance (c : HCfg) (cap i : Nat) (ch : List Entry) : Decidable (chainOk c cap i ch) := by
   unfold chainOk; infer_instance
 
-instance instDecBucketsOk (c : HCfg) (cap : Nat) : (i : Nat) → (bs : List (List Entry)) → Decidable (bucketsOk c cap i bs)
-  | _, [] => isTrue trivial
-  | i, ch :: rest =>
-    have := instDecBucketsOk c cap (i + 1) rest
-    by unfold bucketsOk; infer_instance
-
-/-- representation invariant -/
+/-- representation invariant: the capacity is a power of two not above `MAX_POW_TWO = 2^31`; the
+bucket array has `capacity` slots; `size` counts the entries; every entry sits in the bucket its
+cached hash selects and the cached hash is the hash of its key; keys are pairwise distinct; the
+threshold is the float product for the current capacity. -/
 def Inv (c : HCfg) (t : HashTable) : Prop :=
-  t.capacity = 2 ^ t.capacity.log2 ∧ t.capacity ≤ Gen.MAX_POW_TWO ∧
+  (∃ k, k < 32 ∧ t.capacity = 2 ^ k) ∧
   t.buckets.length = t.capacity ∧
   t.size = t.buckets.flatten.length ∧
-  bucketsOk c t.capacity 0 t.buckets ∧
+  (∀ j, j < t.buckets.length → chainOk c t.capacity j (t.bucket j)) ∧
   (t.buckets.flatten.map (·.key)).Nodup ∧
   t.threshold = c.thr t.capacity
 
